@@ -10,7 +10,7 @@
 From Coq Require Import List NArith ZArith QArith Bool String.
 From Qryn Require Import model.TqSql model.Traceql model.TraceqlPlan model.TraceqlSem
      proofs.TraceqlBitsetProofs proofs.TraceqlAnalyzeProofs proofs.TraceqlEvalProofs proofs.TraceqlSelectorProofs
-     proofs.TraceqlWfProofs.
+     proofs.TraceqlWfProofs model.TraceqlPortions proofs.TraceqlPortionsProofs.
 Import ListNotations.
 Open Scope string_scope.
 
@@ -99,3 +99,15 @@ Theorem traceql_sql_wellformed : forall (c : ctx) (q : script) (m : mode) (n : n
   ctx_ok c = true -> plan q m c n = Ok s -> wfc_sel s = true.
 Proof. intros c q m n s Hc H. exact (plan_wfc c Hc q m n s H). Qed.
 Print Assumptions traceql_sql_wellformed.
+
+(* 8. ComplexRequestProcessor (requests estimated at 10 000 000 index rows or more): running the search once per
+   portion  cityHash64(trace_id) % portions = i OR trace_id IN (winners so far), with the lower bound of the window
+   raised to the oldest winner once `limit` winners are known (the code's from.Nanosecond() == 0 test for "unset"
+   included), ends with a top-`limit` selection of all matching traces of the portions processed -- whatever ties
+   each statement breaks.  Abstraction: one time per trace (recency key = start time = time of its matched spans);
+   limit >= 1; unique trace ids. *)
+Theorem portions_fold_topk : forall (all : list tr) (part : N -> N) (k : nat) (from0 : Z),
+  NoDup (map tid all) -> (1 <= k)%nat ->
+  forall n S f, reach all part k from0 n S f -> topk k (U all part from0 n) S.
+Proof. exact reach_topk. Qed.
+Print Assumptions portions_fold_topk.
